@@ -75,6 +75,22 @@ class NPProxy:
             return _np.sign(e)
         return _elementwise(sgn, x)
 
+    # symbolic elements are reals: always finite, never NaN (what these predicates do on floats is C08's QF_FP layer)
+    def isfinite(self, x):
+        if _is_symbolic(x):
+            return _np.ones(_np.shape(x), dtype=bool) if _np.ndim(x) else True
+        return _np.isfinite(x)
+
+    def isnan(self, x):
+        if _is_symbolic(x):
+            return _np.zeros(_np.shape(x), dtype=bool) if _np.ndim(x) else False
+        return _np.isnan(x)
+
+    def isinf(self, x):
+        if _is_symbolic(x):
+            return _np.zeros(_np.shape(x), dtype=bool) if _np.ndim(x) else False
+        return _np.isinf(x)
+
     def real(self, x):
         if _is_symbolic(x):
             return _elementwise(lambda e: e.real if hasattr(e, 'real') else e, x)
